@@ -83,12 +83,21 @@ static int validate_checksums(zckCtx *zck, zck_log_type bad_checksums) {
             return 0;
 
         size_t rlen = 0;
+        bool short_read = false;
         while(rlen < idx->comp_length) {
             size_t rsize = BUF_SIZE;
             if(BUF_SIZE > idx->comp_length - rlen)
                 rsize = idx->comp_length - rlen;
-            if(read_data(zck, buf, rsize) != rsize)
+            ssize_t rb = read_data(zck, buf, rsize);
+            if(rb < 0)
+                return 0;
+            if((size_t)rb != rsize) {
+                /* The file ends before the chunk does, so the chunk can't
+                 * be valid */
                 zck_log(ZCK_LOG_DEBUG, "No more data");
+                short_read = true;
+                break;
+            }
             if(!hash_update(zck, &(zck->check_chunk_hash), buf, rsize))
                 return 0;
             if(!zck->has_uncompressed_source) {
@@ -97,9 +106,15 @@ static int validate_checksums(zckCtx *zck, zck_log_type bad_checksums) {
             }
             rlen += rsize;
         }
-        int valid_chunk = validate_chunk(idx, bad_checksums);
-        if(!valid_chunk)
-            return 0;
+        int valid_chunk = -1;
+        if(short_read) {
+            zck_log(bad_checksums, "Chunk %llu is truncated",
+                    (long long unsigned)idx->number);
+        } else {
+            valid_chunk = validate_chunk(idx, bad_checksums);
+            if(!valid_chunk)
+                return 0;
+        }
         idx->valid = valid_chunk;
         if(all_good && valid_chunk != 1)
             all_good = false;
@@ -415,7 +430,7 @@ int ZCK_PUBLIC_API zck_validate_data_checksum(zckCtx *zck) {
             size_t rb = BUF_SIZE;
             if(rb > to_read)
                 rb = to_read;
-            if(!read_data(zck, buf, rb))
+            if(read_data(zck, buf, rb) != rb)
                 return 0;
             if(!hash_update(zck, &(zck->check_full_hash), buf, rb))
                 return 0;
